@@ -20,7 +20,7 @@ type c01case struct {
 }
 
 func runC01(c *Check, rng *rand.Rand) {
-	c.Rule = "case = (per-client kind sequence, backend release order, chunking); distinct = kind-sequence signature x release strategy x chunked; non-trivial = pipeline has >=2 requests"
+	c.Rule = "case = (per-client kind sequence, backend release order, chunking); a second environment has a slot range without owner and its pipelines also contain single-key and split requests with a key in it (answered by the proxy itself while their neighbours are in flight); distinct = kind-sequence signature x release strategy x chunked; non-trivial = pipeline has >=2 requests"
 	c.Assumptions = []string{
 		"fake cluster answers each backend connection in request order (like Redis); cross-node order is dictated by gates",
 		"quiescence = all gates open + 8 event-loop rounds on a witness connection; missing replies re-checked after 1 s and a second barrier",
@@ -29,7 +29,16 @@ func runC01(c *Check, rng *rand.Rand) {
 		name string
 		opt  EnvOpt
 	}
-	cfgs := []cfg{{"default", EnvOpt{Masters: 8}}}
+	// "gap": a slot range of master 3 has no owner; pipelines also contain requests
+	// with a key in it (single-key, or split with routable keys around the bad one),
+	// which the proxy answers itself while their neighbours are in flight
+	gapTopo := func(cl *Cluster) *Topo {
+		t := EvenTopo(cl, 8, 0)
+		r := t.Nodes[3].Slots[0]
+		t.Nodes[3].Slots[0] = [2]int{r[0], r[1] - 200}
+		return t
+	}
+	cfgs := []cfg{{"default", EnvOpt{Masters: 8}}, {"gap", EnvOpt{Masters: 8, Topo: gapTopo}}}
 	if c.Thorough() {
 		cfgs = append(cfgs,
 			cfg{"password+replicas", EnvOpt{Masters: 4, Replicas: 1, Cfg: ProxyCfg{Password: "sekret"}}},
@@ -56,6 +65,9 @@ func runC01(c *Check, rng *rand.Rand) {
 			n := ncases
 			if ci > 0 {
 				n = ncases / 3
+			}
+			if cf.name == "gap" {
+				n = ncases / 2
 			}
 			c01config(c, lrng, cf.name, cf.opt, n)
 		}(ci, cf)
@@ -101,7 +113,13 @@ func c01config(c *Check, rng *rand.Rand, name string, opt EnvOpt, ncases int) {
 		default:
 			g.wSingle, g.wMulti, g.wPing, g.wAuth, g.wReject, g.wQuit = 4, 4, 0, 0, 0, 0
 		}
+		if name == "gap" {
+			g.wUnroutable = 1 + rng.Intn(3)
+		}
 		c01run(c, rng, env, g, cs, name)
+	}
+	if name == "gap" {
+		return
 	}
 	// deep pipelines: more than 1024 (the writev limit) completed replies behind a slow head
 	for k := 0; k < c.Pick(1, 6); k++ {
